@@ -11,6 +11,9 @@
 #include "mesh_writer.hpp"
 
 using namespace vg;
+#ifndef TINY_EXTRA
+#define TINY_EXTRA -1e-310
+#endif
 
 struct CellSpec {
     int cls = 0;
@@ -61,12 +64,16 @@ static rc::Gen<Case> genCase() {
             // coordinate magnitude / sign classes, including exact zeros and negative zeros
             const double scale = *rc::gen::element(1.0, 1e-9, 1e-6, 1e-3, 37.0, 1e6);
             const int off_class = *irange(0, 4);
+            const unsigned tiny_pick = (unsigned)*irange(0, 8);
             double off[3];
             for (double& v : off) v = off_class == 0 ? 0 : *uniform(-1, 1) * (off_class == 1 ? 3 : off_class == 2 ? 100 : off_class == 3 ? 1e4 : 1) * scale;
             for (size_t j = 0; j < m.nn(); j++)
                 for (int q = 0; q < 3; q++) {
                     double v = m.xyz[3 * j + q] * scale + off[q];
-                    if (off_class == 4 && std::fabs(m.xyz[3 * j + q]) < 1e-12) v = (j & 1) ? -0.0 : 0.0;
+                    // nodes on a coordinate plane: exact zeros of both signs, and the tiny values of either sign that rounding leaves
+                    // there (three-digit exponents in the %.4e rendering)
+                    static const double TINY[] = {0.0, -0.0, 2.5e-101, -2.5e-101, -7.25e-200, 3.0e-17, -3.0e-17, -1.2345e-99, TINY_EXTRA};
+                    if (off_class == 4 && std::fabs(m.xyz[3 * j + q]) < 1e-12) v = TINY[(j * 3 + q + tiny_pick) % (sizeof(TINY) / sizeof(TINY[0]))];
                     m.xyz[3 * j + q] = v;
                 }
             c.mesh = m;
